@@ -29,7 +29,7 @@ mcvars == <<vars, world, n, forged, hist>>
 HId(a, l, s) == [a |-> a, l |-> l, seq |-> s, v |-> "Honest"]
 
 H(a, l, s) ==
-    [id |-> HId(a, l, s), a |-> a, l |-> l, seq |-> s,
+    [id |-> HId(a, l, s), a |-> a, l |-> l, ol |-> l, seq |-> s,
      prune |-> (<<a, l, s>> \in world),
      bl |-> IF s = 0 THEN NoId ELSE HId(a, l, s - 1),
      wf |-> TRUE]
@@ -60,10 +60,13 @@ Forge(b, k, x) ==
       \* verifying key replaced by the attacker's and re-signed with the attacker's key:
       \* a VALID operation of the attacker whose backlink points into the victim's log
       [] k = "Resigned"          -> [b EXCEPT !.id = FId(b, k, x), !.a = x]
+      \* the honest operation itself (same hash), delivered on the topic of ANOTHER log x
+      [] k = "CrossLog"          -> [b EXCEPT !.l = x]
 
 Params(b, k) ==
     CASE k \in {"ClaimOtherAuthor", "ForgedPrune"} -> (Author \cup Mallory) \ {b.a}
       [] k = "Resigned"   -> Mallory
+      [] k = "CrossLog"   -> Log \ {b.l}
       [] k = "SeqChanged" -> (0..MaxSeq) \ {b.seq}
       [] OTHER            -> {0}
 
@@ -116,7 +119,7 @@ Done == n = MaxDeliver /\ inQ = <<>> /\ pruneQ = <<>>
 (* else have the same futures.                                                                 *)
 ViewItem(it) ==
     IF it.wf THEN it
-    ELSE [it EXCEPT !.id = [a |-> "", l |-> "", seq |-> -1, v |-> "Invalid"], !.bl = NoId]
+    ELSE [it EXCEPT !.id = [a |-> "", l |-> "", seq |-> -1, v |-> "Invalid"], !.bl = NoId, !.ol = it.l]
 NoHistView ==
     <<store, [i \in DOMAIN inQ |-> ViewItem(inQ[i])],
       [i \in DOMAIN pruneQ |-> [item |-> ViewItem(pruneQ[i].item), res |-> pruneQ[i].res]],
@@ -150,9 +153,12 @@ Reach_GapAfterPruneJump == ~(\E e \in store : e.prune /\ e.seq > 0 /\ ~\E p \in 
 AllPositions == Author \X Log \X (0..MaxSeq)
 FirstAuthorPositions == {p \in AllPositions : p[1] = "a1"}
 LastOfFirstAuthor == {p \in AllPositions : p[1] = "a1" /\ p[3] = MaxSeq}
+EvenPositions == {p \in AllPositions : p[3] > 0 /\ p[3] % 2 = 0}
 NoPositions == {}
 AllClasses == {"BadSig", "BadVersion", "PayloadInfoInconsistent", "BacklinkSeqInconsistent",
                "BodyMismatch", "ClaimOtherAuthor", "PruneFlipped", "SeqChanged",
                "BacklinkChanged", "ForgedPrune", "Resigned"}
+OnlyResigned == {"Resigned"}
+OnlyCrossLog == {"CrossLog"}
 PruneAttackClasses == {"ForgedPrune", "PruneFlipped", "ClaimOtherAuthor", "BadSig", "Resigned"}
 =============================================================================
